@@ -376,6 +376,8 @@ func genGap(r *lib.Rng, id int64, tier string) Case {
 		want = 2
 	case k < 2*rare+120:
 		want = 3
+	case k < 2*rare+420:
+		want = 4 // inside a read, within its first two frame starts: given up / realigned late, but REPORTED
 	}
 	for try := 0; try < 60; try++ {
 		c, sp := baseCase(r, id, tier, "gap")
@@ -384,16 +386,20 @@ func genGap(r *lib.Rng, id int64, tier string) Case {
 		ops := chunkOps(r, len(s), fs, r.Pick([]int{0, 1, 1, 3}))
 		// candidate position: a release point of the well-formed accounting plus a few words, or anywhere
 		D, R := 0, 0
-		var points []int
+		var points, starts []int
 		for _, o := range ops {
 			D += o.N
 			if D-R >= 3*fs {
+				starts = append(starts, R)
 				R += (D - R) / fs * fs
 				points = append(points, R, D)
 			}
 		}
 		pos := r.Range(fs, len(s)-4*fs)
-		if len(points) > 0 && want != 2 && r.Chance(3, 4) {
+		if want == 4 && len(starts) > 0 {
+			pos = starts[r.Intn(len(starts))] + 4*r.Range(1, 2*sp.ncols*sp.nrows)
+		}
+		if len(points) > 0 && want != 2 && want != 4 && r.Chance(3, 4) {
 			pos = points[r.Intn(len(points))]
 			if r.Chance(1, 2) {
 				pos += 4 * r.Range(0, sp.ncols*sp.nrows-1)
@@ -456,6 +462,8 @@ func genGap(r *lib.Rng, id int64, tier string) Case {
 			ok = tags["gap-word-aligned-inside-read"]
 		case 3:
 			ok = tags["gap-multiple-of-frame"]
+		case 4:
+			ok = tags["gap-in-first-two-frames"]
 		}
 		if ok {
 			return c
@@ -610,6 +618,17 @@ func corpus(tier string) []Case {
 		c := Case{Ncols: 3, Nrows: 2, Nsamp: 2, Rate: 1000, GapPos: pos, GapLen: glen, Kind: "corpus", Stream: hex.EncodeToString(cut)}
 		c.Ops = []Op{{Op: "C", N: 10*24 + 8, T: 2}, {Op: "M", Ch: []int{1, 3}, Fr: []float64{0.5, 0.5}}, {Op: "C", N: 200, T: 4},
 			{Op: "C", N: len(cut) - 448, T: 5}}
+		out = append(out, c)
+	}
+	// 13. rows 1-2 of frame 6 are lost and frame 6 is the second frame of a read (2 columns x 4 rows): the geometry
+	//     test fails, the read is given up, and the NEXT block must report the loss (droppedFrames > 0)
+	{
+		sp := streamSpec{ncols: 2, nrows: 4, nframes: 30, values: 2, flags: 1}
+		s := makeStream(r, sp)
+		pos, glen := 6*32+8, 16
+		cut := append(append([]byte(nil), s[:pos]...), s[pos+glen:]...)
+		c := Case{Ncols: 2, Nrows: 4, Nsamp: 1, Rate: 5, GapPos: pos, GapLen: glen, Kind: "corpus", Stream: hex.EncodeToString(cut)}
+		c.Ops = []Op{{Op: "C", N: 5 * 32, T: 1}, {Op: "C", N: 13*32 - 16, T: 2}, {Op: "C", N: len(cut) - 5*32 - 13*32 + 16, T: 4}}
 		out = append(out, c)
 	}
 	// 11. the consumer lags four reads behind the reader (reads of 9.5, 7.25, 5 and 4.5 frames wait on buffersChan
